@@ -16,6 +16,13 @@ int main(void) {
             unsigned char* out = (unsigned char*)malloc(cap ? cap : 1);
             size_t r = d ? ZSTD_decompress_usingDict(dctx, out, cap, in, n, d, dn) : ZSTD_decompressDCtx(dctx, out, cap, in, n);
             zv_result(r, out); free(in); free(out); free(d);
+        } else if (!strcmp(op, "decf")) {
+            int fmt = atoi(strtok(NULL, " ")); size_t cap = (size_t)strtoull(strtok(NULL, " "), NULL, 10), n; unsigned char* in = zv_unhex(strtok(NULL, " "), &n);
+            unsigned char* out = (unsigned char*)malloc(cap ? cap : 1); size_t r;
+            ZSTD_DCtx_setParameter(dctx, ZSTD_d_format, fmt);
+            r = ZSTD_decompressDCtx(dctx, out, cap, in, n);
+            ZSTD_DCtx_setParameter(dctx, ZSTD_d_format, 0);
+            zv_result(r, out); free(in); free(out);
         } else if (!strcmp(op, "comp")) {
             int level = atoi(strtok(NULL, " ")); int flags = atoi(strtok(NULL, " ")); size_t n; unsigned char* in = zv_unhex(strtok(NULL, " "), &n);
             size_t cap = ZSTD_compressBound(n); unsigned char* out = (unsigned char*)malloc(cap); size_t r;
@@ -27,6 +34,27 @@ int main(void) {
             r = ZSTD_compress2(cctx, out, cap, in, n);
             if (ZSTD_isError(r)) printf("err %s\n", zv_errclass(r)); else { zv_puthex(out, r); putchar('\n'); }
             free(in); free(out);
+        } else if (!strcmp(op, "comp2")) {
+            /* comp2 <api> <id=val,...|-> <hex-src> [dict-hex] ; api in c2 simple cctx adv udict ucdict */
+            char* api = strtok(NULL, " "); char* ps = strtok(NULL, " "); size_t n, dn = 0; unsigned char* in = zv_unhex(strtok(NULL, " "), &n);
+            char* dh = strtok(NULL, " "); unsigned char* d = dh ? zv_unhex(dh, &dn) : NULL;
+            size_t cap = ZSTD_compressBound(n) + 64; unsigned char* out = (unsigned char*)malloc(cap); size_t r = 0; int level = 3; char* save = NULL; char* kv;
+            ZSTD_CCtx_reset(cctx, ZSTD_reset_session_and_parameters);
+            for (kv = strtok_r(ps, ",", &save); kv && !ZSTD_isError(r); kv = strtok_r(NULL, ",", &save)) {
+                int id, val; if (sscanf(kv, "%d=%d", &id, &val) == 2) { if (id == 100) level = val; r = ZSTD_CCtx_setParameter(cctx, (ZSTD_cParameter)id, val); } }
+            if (!ZSTD_isError(r)) {
+                if (!strcmp(api, "c2")) { if (d) r = ZSTD_CCtx_loadDictionary(cctx, d, dn); if (!ZSTD_isError(r)) r = ZSTD_compress2(cctx, out, cap, in, n); }
+                else if (!strcmp(api, "simple")) r = ZSTD_compress(out, cap, in, n, level);
+                else if (!strcmp(api, "cctx")) r = ZSTD_compressCCtx(cctx, out, cap, in, n, level);
+                else if (!strcmp(api, "adv")) { ZSTD_parameters p = ZSTD_getParams(level, n, dn); r = ZSTD_compress_advanced(cctx, out, cap, in, n, d, dn, p); }
+                else if (!strcmp(api, "udict")) r = ZSTD_compress_usingDict(cctx, out, cap, in, n, d, dn, level);
+                else if (!strcmp(api, "ucdict")) { ZSTD_CDict* cd = ZSTD_createCDict(d, dn, level); r = cd ? ZSTD_compress_usingCDict(cctx, out, cap, in, n, cd) : (size_t)-1; ZSTD_freeCDict(cd); }
+                else r = (size_t)-1;
+            }
+            if (ZSTD_isError(r)) printf("err %s\n", zv_errclass(r)); else { zv_puthex(out, r); putchar('\n'); }
+            free(in); free(out); free(d);
+        } else if (!strcmp(op, "xxh")) {
+            size_t n; unsigned char* in = zv_unhex(strtok(NULL, " "), &n); printf("ok %zu %016llx\n", n, (unsigned long long)XXH64(in, n, 0)); free(in);
         } else if (!strcmp(op, "fsize")) {
             size_t n; unsigned char* in = zv_unhex(strtok(NULL, " "), &n); size_t r = ZSTD_findFrameCompressedSize(in, n);
             if (ZSTD_isError(r)) printf("err %s\n", zv_errclass(r)); else printf("ok %zu\n", r); free(in);
